@@ -26,7 +26,9 @@ EXPIRIES = {"before": timedelta(hours=-1), "on-h2": timedelta(hours=2), "between
             "after": timedelta(hours=9)}
 HOLD = {"buy1": (1, 0), "buy3": (3, 0), "buy5sell2": (5, 2), "far-first-buy2": (2, 0),  # far-first: a later-expiring option is bought BEFORE this one
         # a second position (OPP: the opposite kind, same strike and expiry, so exactly one of the two is in the money) settles on the same bar
-        "pair-opt-first": (2, 0), "pair-opp-first": (2, 0)}
+        "pair-opt-first": (2, 0), "pair-opp-first": (2, 0),
+        # the longer-dated option is bought at hour 0, the option under test one bar later
+        "late-buy2": (2, 0)}
 OPP_AMOUNT = 3
 BOOKS = ("opt-first", "other-first")  # other-first: the hour's first row is ANOTHER instrument whose underlying price lies on the other side of the strike
 
@@ -73,7 +75,10 @@ def build_case(case):
             bids = [[round(max(mark - 0.0005, 0.0001), 6), 9.0]]
             # every instrument row carries its OWN underlying price (the exchange quotes one per expiry)
             u = 2 * K - under if (name == other_name(case) and case.get("book") == "other-first") else under
-            instrs.append(db.instrument(name, kind, K, exp, mark, u, asks, bids))
+            row = db.instrument(name, kind, K, exp, mark, u, asks, bids)
+            if case.get("book") == "other-first" or case["hold"].startswith(("pair", "late")):
+                row["settlement_price"] = 0.06  # the exchange's daily settlement price of the OPTION (in coin) - not what an expiry is settled against
+            instrs.append(row)
         hours.append((ts, instrs))
         if case["co"] == "uni":
             # the collector also took a snapshot at half past the hour; the history is thinned to the hour below
@@ -124,9 +129,14 @@ def run_case(case):
                 m.buy(other_name(case), Decimal(1))  # expires in 30 days; held before the option under test, so it comes first in the positions
             if case["hold"] == "pair-opp-first":
                 m.buy("OPP", Decimal(OPP_AMOUNT))
-            m.buy("OPT", Decimal(bought))
+            if case["hold"] == "late-buy2":
+                m.buy(other_name(case), Decimal(1))
+            else:
+                m.buy("OPT", Decimal(bought))
             if case["hold"] == "pair-opt-first":
                 m.buy("OPP", Decimal(OPP_AMOUNT))
+        if h == 1 and case["hold"] == "late-buy2":
+            m.buy("OPT", Decimal(bought))
         if h == 1 and sold and (settle_h is None or settle_h > 1):  # a position settled at hour 0 / 1 cannot be sold at hour 1
             m.sell("OPT", Decimal(sold))
         # trade attempts on the other instrument: open bars must accept, closed bars must refuse
@@ -212,10 +222,13 @@ def judge(part, case):
                        {"settled_at": str(expired[0].timestamp), "expected": str(settle_bar), "expiry": str(expiry)})
         return
     i = bars.index(settle_bar)
-    held_before = all(obs["held_after_bar"][:i])
+    first_held = 0
+    if case["hold"] == "late-buy2":
+        first_held = bars.index(T0 + pd.Timedelta(hours=1))  # bought one hour into the run
+    held_before = all(obs["held_after_bar"][first_held:i])
     if not held_before or obs["held_after_bar"][i]:
         part.violation("C16|held-flags", "the position must be held on every bar before the settlement bar and gone afterwards", case,
-                       {"held_after_bar": obs["held_after_bar"][:i + 2]})
+                       {"held_after_bar": obs["held_after_bar"][first_held:i + 2]})
     if any(obs["held_after_bar"][i:]):
         part.violation("C16|reappeared", "a settled position is held again", case)
     # ---- payoff --------------------------------------------------------------------------------------------------------------
@@ -316,6 +329,8 @@ def all_cases(run):
         if h.startswith("pair") and (mk == "missing" or (co == "uni" and not run.thorough)):
             continue
         if u == "0.4K" and (mk != "normal" or h not in ("buy1", "buy5sell2", "pair-opp-first")):
+            continue
+        if h == "late-buy2" and (e in ("before", "on-h0") or mk != "normal" or bk != "opt-first" or (co == "uni" and not run.thorough)):
             continue
         if not run.thorough:
             if co == "uni" and (h != "buy5sell2" or bk != "opt-first" or mk == "missing" and u not in ("K+d", "K-d")):
